@@ -357,11 +357,19 @@ CHECKS = {
             "Lean theorems C16.create_succeeds, fresh_attrs, clone_equal, create_then_clone, clone_disjoint, clone_shares_no_mutable, write_independent, "
             "clone_chain, pickle_equal, pickle_disjoint, meta_create_equivalent / meta_create_keeps_old / meta_create_old_instances / meta_create_rebinds "
             "(creating a class again under the same name yields an equivalent class, the old class object and its instances keep working, the module name "
-            "is rebound), class_roundtrip, partial_call, decorate_keeps_frozen hold for every class table (classes mention earlier classes only, dict_inst "
+            "is rebound), class_roundtrip, namespace_history_keeps_classes, pickle_class_independent_of_namespace / loaded_object_class_record / "
+            "pickle_class_description (classes pickle by value: for EVERY sequence of creator.create / del between dump and load, in the same or another "
+            "module, the load succeeds, the loaded heap is the dumper's own round trip with each class id replaced by a class made by this load, that "
+            "class carries the pickled record - kind, weights/typecode/class-level constants, per-instance attribute names and their classes, "
+            "identity-free description equal - it is never a class the namespace held, and existing classes are untouched), node_pickle_roundtrip / "
+            "rename_keeps_node_names (every slot of every gp.Primitive / gp.Terminal survives __getstate__/__setstate__ after every history of "
+            "renameArguments, which never writes a name slot), partial_call, decorate_keeps_frozen hold for every class table (classes mention earlier classes only, dict_inst "
             "names unique), every closed heap and every finite object graph meeting the hooks' stated side conditions, at every depth and chain length; "
             "Core/Heap.lean (deepcopy with memo + the five DEAP hooks as coded, incl. numpy.ndarray.__deepcopy__ for object-dtype arrays after fix F29, "
             "reduce-tuple pickling, init_type, functools.partial) is diffed against the real creator/clone/pickle on concrete object graphs with an "
-            "identity-aware dump for all bases, attribute graphs with aliasing, protocols 0..5, same and fresh interpreter; the statement (equal "
+            "identity-aware dump for all bases, attribute graphs with aliasing, protocols 0..5, same and fresh interpreter, namespace histories "
+            "(create / re-create with the same keyword names and other values / delete / dump / load, replayed by Heap.nsRun/dumpP/loadP and compared by "
+            "identity-free class descriptions and final bindings) and trees over primitive sets with renamed arguments (Heap.Gp); the statement (equal "
             "abstraction, equivalent class, no shared mutable object, mutation in both directions) is an oracle on the real objects.",
             TB + "partial: that CPython's copy/pickle/metaclass machinery dispatches to the modelled hooks (e.g. __reduce_ex__ precedence, F11; __slots__/__getstate__, F15) "
             "is runtime behaviour only the correspondence sees; so are the pickle protocols, the fresh interpreter and the picklability of toolbox aliases "
